@@ -976,7 +976,7 @@ func TestCheck(t *testing.T) {
 	if only != "" && only != "random" {
 		return
 	}
-	r.Search(t, "random", sub, r.N(40000, 600000), func(rt *rapid.T) (any, *report.Failure) {
+	r.Search(t, "random", sub, r.N(160000, 600000), func(rt *rapid.T) (any, *report.Failure) {
 		c := genRandom(rt)
 		return c, execute(c)
 	})
